@@ -30,7 +30,9 @@ SPEC = {
                   "current). The reset at the wrap does cut established flows under unchanged rules once per 65 536 reloads "
                   "(C19_same_rules_wrap_refuted, reproduced on the real code: known finding F25, signature reload-version-wrap); "
                   "the specification as the property states it (no reset) is proved for every history without a wrap and is "
-                  "the one evaluated on the implementation, so the wrap witness reproduces on every run. The model is tied to interface.go/firewall.go by "
+                  "the one evaluated on the implementation, so the wrap witness reproduces on every run. With a routine-local conntrack cache a reload does not empty the cache: a cached flow skips "
+                  "revalidation until the next tick and no longer (C19_cache_staleness_bounded; specification with a cache on all "
+                  "histories). The model is tied to interface.go/firewall.go by "
                   "histories driven through the real reloadFirewall (config.C reload callback) with generated rule sets including "
                   "reverted rules, rules saying the same in other words, timeout-only changes, unchanged configurations and "
                   "unsafe-network changes of our certificate, with rulesVersion preset near 65535 through the overlay; the "
@@ -38,14 +40,14 @@ SPEC = {
     "level_note": "Trusted: Coq kernel; the harness, the overlay shim (it builds Interface{pki, firewall, l} and registers "
                   "reloadFirewall as the reload callback, as RegisterConfigChangeCallbacks does), Go's testing/synctest clock. "
                   "Rule matching (C16) and the address checks (C17) are taken from the real code per (rule set, peer, tuple) and "
-                  "are abstract in the theorems. The routine-local ConntrackCache is excluded (nil cache). Whether a reload "
+                  "are abstract in the theorems. About a third of the histories run with the real ConntrackCacheTicker (1 s period), the rest with a nil cache. Whether a reload "
                   "detects a change (config.C.HasChanged on the YAML text) is an input of the model, checked against the "
                   "implementation. The correspondence is differential testing (sweep + random).",
     "build_comp": "conntrack",
     "gens": ["gen_conntrack"],
     "props": ["props/C19.v"],
     "corr": ["corr/Conntrack_corr.v"],
-    "comps": [{"comp": "fwreload", "n_quick": 160, "n_thorough": 5000}],
+    "comps": [{"comp": "fwreload", "n_quick": 200, "n_thorough": 5000}],
     "trusted": ["model/FwReload.v is a hand-written mirror of Interface.reloadFirewall (version +1 in uint16, conntrack inherited, "
                 "reset at 0); model/Conntrack.v mirrors the revalidation in inConns; tied by the correspondence",
                 "allowed / addr_ok are tabulated per case by the real FirewallTable.match and the real address lookups, per loaded "
@@ -53,6 +55,6 @@ SPEC = {
     "assumptions": ["reloadFirewall holds the conntrack lock while swapping the firewall (reload is atomic w.r.t. Drop)",
                     "C19_same_rules_never_cut: each remote address passes the address checks for one peer only, and the reload "
                     "does not wrap rulesVersion",
-                    "Drop is called with a nil routine cache"],
+                    "the nil-cache theorems are about Drop with a nil routine cache"],
     "classify": classify,
 }
